@@ -661,9 +661,9 @@ def build_bare():
     for bi, (label, branch) in enumerate(nqmodel.bare_branches()):
         b_id = rx.minus(branch, dollar)
         tag = f"branch{bi}[{label}]"
-        qs.append({"name": f"bare/{tag}/structure-the-reader-rejoins", "langs": [rx.minus(b_id, safe_struct())], "replay": _replay_words, "timeout_ms": 120000})
+        qs.append({"name": f"bare/{tag}/structure-the-reader-rejoins", "langs": [rx.minus(b_id, safe_struct())], "replay": _replay_words, "timeout_ms": 300000})
         for i, ptxt, tname, plang in pats:
-            qs.append({"name": f"bare/{tag}/pattern#{i}({tname})-never-fires-at-a-segment-start", "langs": [rx.inter(rx.cat(b_id, fol), rx.cat(seg_start, plang))], "replay": _replay_words_strip_follow, "timeout_ms": 60000})
+            qs.append({"name": f"bare/{tag}/pattern#{i}({tname})-never-fires-at-a-segment-start", "langs": [rx.inter(rx.cat(b_id, fol), rx.cat(seg_start, plang))], "replay": _replay_words_strip_follow, "timeout_ms": 240000})
     # scanner must stop at the end of the value: the next char is not an identifier body char, '<', '{' or '%'
     qs.append({"name": "follow/stops-scanner", "langs": [rx.inter(lm.follow(), rx.cat(rx.alt(lm.ID_BODY(), rx.chars("<{%")), rx.SIGMA_STAR))], "replay": lambda w: (False, "model-only query")})
     # variables
